@@ -85,6 +85,9 @@ class ConcreteCtx:
     def eq(self, a, b):
         return close(a, b)
 
+    def le(self, a, b, tol=1e-9):
+        return float(a) <= float(b) + tol
+
     def approx(self, a, b, tol=1e-9):
         return close(a, b, rel=1e-7, abs_=max(tol, 1e-9))
 
